@@ -28,6 +28,8 @@ impl Prop for C02 {
         } }
         for i in 0..(if th { 60 } else { 14 }) { v.push(case(&[("kind", "wrong".into()), ("pwi", (i % npw).to_string()), ("len", (*rng.pick(&[0usize, 30, 65537])).to_string()), ("rel", (*rng.pick(&["bitflip", "append", "drop", "other"])).into()), ("seed", rng.next().to_string())])); }
         v.extend(crate::props::clirt::cli_rt_cases("pass", tier, seed));
+        // through the tool: passwords that differ only in a trailing line end, in case, or by a space are DIFFERENT passwords (KESTREL_PASSWORD is taken verbatim)
+        for pair in ["lf", "crlf", "cr", "case", "space", "prefix"] { v.push(case(&[("kind", "cli-wrong".into()), ("pair", pair.into()), ("seed", rng.next().to_string())])); }
         v.extend(crate::props::c12::C12.cases(tier, seed ^ 0x02).into_iter().filter(|c| get(c, "op") == "fifo-input" && get(c, "cmd").starts_with("pass")));
         v.push(case(&[("kind", "wrong".into()), ("pwi", "1".into()), ("len", "30".into()), ("rel", "nulpad".into()), ("seed", "21".into())]));
         v.push(case(&[("kind", "wrong".into()), ("pwi", "5".into()), ("len", "30".into()), ("rel", "longhash".into()), ("seed", "22".into())]));
@@ -36,6 +38,22 @@ impl Prop for C02 {
     fn run(&self, c: &Case, m: &mut Model) -> Outcome {
         if get(c, "kind") == "cli-rt" { return crate::props::clirt::run_cli_rt(c, m); }
         if get(c, "op") == "fifo-input" { return crate::props::c12::C12.run(c, m); }
+        if get(c, "kind") == "cli-wrong" {
+            use crate::cli::*;
+            let mut o = Outcome::default(); let mut rng = Rng::new(get(c, "seed").parse().unwrap_or(0));
+            let (a, b): (&str, &str) = match get(c, "pair") { "lf" => ("hunter2\n", "hunter2"), "crlf" => ("hunter2", "hunter2\r\n"), "cr" => ("pw\r", "pw"), "case" => ("Hunter2", "hunter2"), "space" => ("hunter2 ", "hunter2"), _ => ("hunter22", "hunter2") };
+            let plain = rng.bytes(100);
+            let e = run_kestrel(&World { files: vec![("p".into(), plain.clone())], env: vec![("KESTREL_PASSWORD".into(), a.into())], stdin: vec![] }, &sv(&["password", "encrypt", "p", "-o", "c", "--env-pass"]));
+            let Some(ct) = e.file("c").cloned() else { o.oracle_fail = Some(("cli-encrypt-succeeds".into(), e.stderr)); return o; };
+            o.nontrivial = Some(format!("cli-wrong/{}", get(c, "pair"))); o.tags.push(format!("cli other password: {}", get(c, "pair")));
+            for (enc_pw, dec_pw) in [(a, b), (a, a)] {
+                let d = run_kestrel(&World { files: vec![("c".into(), ct.clone())], env: vec![("KESTREL_PASSWORD".into(), dec_pw.into())], stdin: vec![] }, &sv(&["password", "decrypt", "c", "-o", "out", "--env-pass"])); o.validated += 1;
+                if dec_pw == enc_pw { if d.exit != Some(0) || d.file("out") != Some(&plain) { o.oracle_fail = Some(("cli-decrypt(encrypt(P))=P".into(), format!("password {:?}: the same password does not decrypt (exit {:?})", enc_pw, d.exit))); return o; } }
+                else if d.exit == Some(0) || d.file("out").map(|f| !f.is_empty()).unwrap_or(false) { o.oracle_fail = Some(("other-password-rejected".into(), format!("a file encrypted with KESTREL_PASSWORD = {:?} is decrypted by `kestrel password decrypt --env-pass` with KESTREL_PASSWORD = {:?} (a different byte string): exit {:?}, {} bytes released", enc_pw, dec_pw, d.exit, d.file("out").map(|f| f.len()).unwrap_or(0)))); return o; }
+            }
+            o.impl_obs = "the other password is refused, the same one decrypts".into(); o.model_obs = "same".into();
+            return o;
+        }
         let mut o = Outcome::default();
         let mut rng = Rng::new(get(c, "seed").parse().unwrap_or(0));
         let pws = passwords(&mut rng);
